@@ -298,8 +298,73 @@ def spans_partitions(pdf, by, parts):
     return bool((pd.Series(pid).groupby(key.to_numpy()).nunique() > 1).any())
 
 
+def _group_ids(pdf, by):
+    bys = by if isinstance(by, tuple) else (by,)
+    cols = []
+    for b in bys:
+        if b == "@index":
+            cols.append(pd.Series(pdf.index.to_numpy()))
+        elif b == "@series":
+            cols.append(pdf["g"].reset_index(drop=True))
+        elif b == "@par":
+            cols.append((pdf["a"] % 2).reset_index(drop=True))
+        else:
+            cols.append(pdf[b].astype(object).reset_index(drop=True))
+    return pd.concat(cols, axis=1).apply(lambda r: repr(tuple(r)), axis=1)
+
+
+def _allna_group_in_partition(pdf, by, parts, col="f"):
+    """some (partition, group) cell holds only NA in `col` although the cell is not empty"""
+    gid = _group_ids(pdf, by).to_numpy()
+    na = pdf[col].isna().to_numpy()
+    b = np.cumsum((0,) + tuple(parts))
+    for b0, b1 in zip(b[:-1], b[1:]):
+        for g in set(gid[b0:b1]):
+            m = gid[b0:b1] == g
+            if na[b0:b1][m].all():
+                return True
+    return False
+
+
+FIRSTLAST_SPECS = ("listfl", "dict2")
+
+
 def known_class(case, failure, pdf):
-    """narrow input classes of the findings recorded in C38.findings.json"""
+    """-> None | (operation family, narrow input class) for the findings recorded in C38.findings.json.  A failure outside these
+    classes keeps its bare '<op>[df|series]:<failure>' key and is reported as new."""
+    sweep, by, sel, op, opkw, gbkw, parts, cfg = case
+    g, c = dict(gbkw), dict(cfg)
+    so = c.get("split_out", True if op == "nunique" else 1)
+    so_gt1 = so is True or so > 1
+    disk = c.get("shuffle_method") in (None, "disk")
+    empty = 0 in parts
+    spec = dict(opkw).get("spec")
+    uses_f = sel in (None, "f")
+    if op in ("cov", "corr"):
+        return ("covcorr", "any-input")
+    if by == "kc" and g.get("observed") is False and so_gt1 and failure == "wrong-value" and op != "nunique":
+        return ("agg", "observed-false-split-out")
+    if op in ("mean", "var", "std") and by == "kn" and g.get("dropna") is None and failure == "wrong-value":
+        return ("meanvarstd", "na-key-default-dropna")
+    if op == "nunique":
+        if failure == "wrong-value" and ((by == "kn" and g.get("dropna") is False) or (by == "kc" and g.get("observed") is False)):
+            return ("nunique", "dropna-observed-false-ignored")
+        if failure == "wrong-order" and isinstance(by, tuple) and g.get("sort") is True:
+            return ("nunique", "sort-true-multi-key")
+    if op == "size" and so_gt1 and failure == "wrong-value":
+        return ("size", "split-out-name")
+    if failure == "wrong-value" and disk and (
+        op in ("shift", "ffill", "bfill", "transform") or (so_gt1 and (op in ("first", "last") or spec in FIRSTLAST_SPECS))
+    ):
+        return ("shuffle-disk", "row-order")
+    if op in ("idxmin", "idxmax") and failure == "dask-raises:ValueError" and uses_f and _allna_group_in_partition(pdf, by, parts):
+        return ("idxminmax", "all-na-group-in-partition")
+    if op == "value_counts" and failure == "dask-raises:KeyError" and empty and so_gt1:
+        return ("value_counts", "empty-partition-split-out")
+    if op in ("cumsum", "cumprod") and failure == "wrong-value" and uses_f:
+        return ("cumsumprod", "nan-values")
+    if op == "cumcount" and failure == "wrong-value" and empty:
+        return ("cumcount", "empty-partition-name")
     return None
 
 
@@ -333,6 +398,8 @@ def run_case(case, ctx):
     ctx.case(case, nontrivial=spans_partitions(pdf, by, parts), outcome=(op, type(want).__name__, want.shape, type(exc).__name__))
     if exc is not None:
         cls = dfh.classify_exc(exc)
+        if isinstance(exc, ValueError) and "Grouping by an unaligned column is unsafe" in str(exc):
+            cls = "rejected"  # documented refusal of the cumulative operations for Series keys
         if cls in ("rejected", "out_of_scope"):
             ctx.count(cls)
             return
